@@ -69,8 +69,8 @@ def run(repo, rep, tier):
                     isinstance(pre, ast.BinOp) and isinstance(
                         pre.op, ast.Mod) and isinstance(
                             pre.left, ast.Constant))
-                ident = suf is not None and isinstance(suf, ast.Call) and \
-                    src(suf.func) == "id"
+                ident = any(x is not None and isinstance(x, ast.Call) and
+                            src(x.func) == "id" for x in (suf, pre))
                 if not const and not ident:
                     badp.append("%s: %s" % (f_.name, src(c_)[:60]))
     rep.check(n_id >= 10 and not badp, "R09.1",
